@@ -65,15 +65,39 @@ pub fn beat(pending_event: Option<String>) {
     BEAT.fetch_add(1, std::sync::atomic::Ordering::SeqCst);
 }
 
+/// Time limits of the harness are counted in TICKS the waiting thread has itself lived through (short sleeps / short timed
+/// waits), never as a span between two readings of a clock: when the whole process is frozen for a while (a snapshot of the
+/// sandbox, a stopped container) every thread stands still, the waiting one included, and nobody has hung. A span of wall time
+/// would run out at the thaw (seen once: ten cases of one thorough run "hung" in the same 25 seconds).
+pub fn wait_settled_ticks(role: &str, after_seq: u64) -> Option<tinylfu_cached::cache::verif::ThreadView> {
+    for _ in 0..32 {      // 32 timed waits of 250 ms: the 8 s of TIMEOUT
+        if let Some(view) = tinylfu_cached::cache::verif::wait_settled(role, after_seq, std::time::Duration::from_millis(250)) { return Some(view); }
+    }
+    None
+}
+
+/// `condition` polled every 200 µs for at most 8 s of the caller's own ticks (see `wait_settled_ticks`).
+pub fn wait_until_ticks(mut condition: impl FnMut() -> bool) -> bool {
+    for _ in 0..40_000 {
+        if condition() { return true; }
+        std::thread::sleep(std::time::Duration::from_micros(200));
+    }
+    condition()
+}
+
 fn start_watchdog(out: String) {
     std::thread::spawn(move || {
         let mut last = BEAT.load(std::sync::atomic::Ordering::SeqCst);
-        let mut since = std::time::Instant::now();
+        let mut idle_ticks = 0u32;
         loop {
+            let before = std::time::Instant::now();
             std::thread::sleep(std::time::Duration::from_millis(500));
             let now = BEAT.load(std::sync::atomic::Ordering::SeqCst);
-            if now != last { last = now; since = std::time::Instant::now(); continue; }
-            if last == 0 || since.elapsed() < std::time::Duration::from_secs(25) { continue; }
+            if now != last { last = now; idle_ticks = 0; continue; }
+            // a sleep of 500 ms that took seconds: the process stood still (or the machine is starved) — not a tick of waiting
+            if before.elapsed() > std::time::Duration::from_secs(3) { idle_ticks = 0; continue; }
+            idle_ticks += 1;
+            if last == 0 || idle_ticks < 50 { continue; }
             let pending = PENDING.lock().unwrap_or_else(|p| p.into_inner()).clone();
             let append = |suffix: &str, lines: &[String]| {
                 if let Ok(mut file) = std::fs::OpenOptions::new().append(true).open(format!("{}.{}", out, suffix)) { for line in lines { let _ = writeln!(file, "{}", line); } }
